@@ -73,7 +73,12 @@ type upSource struct {
 }
 
 func (p *upSource) Observable() ro.Observable[int] {
-	return ro.NewUnsafeObservableWithContext(func(ctx context.Context, dest ro.Observer[int]) ro.Teardown {
+	return ro.NewUnsafeObservableWithContext(p.subscribeFn())
+}
+
+// subscribeFn: the subscribe function itself, for the constructors that take one (NewConnectableObservable*)
+func (p *upSource) subscribeFn() func(ctx context.Context, dest ro.Observer[int]) ro.Teardown {
+	return func(ctx context.Context, dest ro.Observer[int]) ro.Teardown {
 		u := &upSub{dest: dest, ctx: ctx}
 		p.mu.Lock()
 		p.ctxs = append(p.ctxs, renderCtx(ctx))
@@ -111,7 +116,7 @@ func (p *upSource) Observable() ro.Observable[int] {
 			u.torn = true
 			p.mu.Unlock()
 		}
-	})
+	}
 }
 
 func (p *upSource) end(u *upSub) {
@@ -533,10 +538,25 @@ func runConnCase(c *Case) string {
 	}
 	src := &upSource{pre: pres}
 	var co ro.ConnectableObservable[int]
-	if c.get("api", "config") == "default" {
+	cfg := ro.ConnectableConfig[int]{Connector: cf, ResetOnDisconnect: c.get("reset", "1") == "1"}
+	fn := src.subscribeFn()
+	plainFn := func(dest ro.Observer[int]) ro.Teardown { return fn(context.Background(), dest) }
+	// ctor=: the six public constructors; the four New… ones wrap the subscribe function with NewObservable[WithContext]
+	switch c.get("api", "config") + "/" + c.get("ctor", "of") {
+	case "default/of":
 		co = ro.Connectable[int](src.Observable())
-	} else {
-		co = ro.ConnectableWithConfig(src.Observable(), ro.ConnectableConfig[int]{Connector: cf, ResetOnDisconnect: c.get("reset", "1") == "1"})
+	case "config/of":
+		co = ro.ConnectableWithConfig(src.Observable(), cfg)
+	case "default/new":
+		co = ro.NewConnectableObservable(plainFn)
+	case "default/newctx":
+		co = ro.NewConnectableObservableWithContext(fn)
+	case "config/new":
+		co = ro.NewConnectableObservableWithConfig(plainFn, cfg)
+	case "config/newctx":
+		co = ro.NewConnectableObservableWithConfigAndContext(fn, cfg)
+	default:
+		return "res " + c.id + " unsupported"
 	}
 	rec := &Recorder{}
 	setRecorder(rec)
@@ -879,6 +899,12 @@ func genConn(tier string, seed int64, only string) []*Case {
 	add := func(api, conn, reset, pre, ev string) {
 		id++
 		cases = append(cases, newCase(id, "kind", "conn", "api", api, "conn", conn, "reset", reset, "pre", pre, "ev", ev))
+		if tier == "thorough" || id%5 == 0 {
+			for _, ctor := range []string{"new", "newctx"} {
+				id++
+				cases = append(cases, newCase(id, "kind", "conn", "api", api, "conn", conn, "reset", reset, "pre", pre, "ev", ev, "ctor", ctor))
+			}
+		}
 	}
 	add("default", "publish", "1", "-", "S,N1,K,N2,S,N3,K,D,N4,S,K,N5")
 	add("config", "replay2", "0", "-", "S,K,N1,N2,N3,D,S,K,N4")
